@@ -639,12 +639,26 @@ theorem c11_header_binds_state (H : Bytes → Bytes) (h32 : ∀ x, (H x).length 
   obtain ⟨suT, hsuT, hkT, hbT⟩ := header_transfer H pb TB r su hrp hag hu shp h2 hk
   exact ⟨suT, hsuT, hkT, by rw [hbT]; exact hdata⟩
 
+/-- COMPLETENESS of the state-hash read-out.  Let a spec-valid tree (a block header, pruned or not) have as third
+reference a Merkle update cell `.mk 4 ub [o, n]` whose data bytes 33..64 are the level-0 hash of its second child `n` (what
+block.tlb's `state_update:^(MERKLE_UPDATE ShardState)` is; `n` is normally the pruned branch of the new state, whose
+level-0 hash is the state's), and let its object pass `check_block_header_proof(·, blk)`.  Then
+`check_block_header_proof(·, blk, True)` returns that hash — the hypothesis `hhdr` of `c11_account_complete_honest`. -/
+theorem c11_header_complete (H : Bytes → Bytes) (k : Int) (b ub : Bits) (x0 x1 o n : Cell) (rest : List Cell) (r0 : PCell)
+    (blk : Bytes) (sn : Spec.SInfo)
+    (wf : TreeWF H (.mk k b (x0 :: x1 :: .mk 4 ub [o, n] :: rest)))
+    (hobj : PCell.ofCell H (.mk k b (x0 :: x1 :: .mk 4 ub [o, n] :: rest)) = some r0)
+    (hblk : checkBlockHeaderProof r0 blk = true) (hsn : specInfo H n = some sn)
+    (hdata : pySlice (dataBytes ub) 33 65 = sn.hashAt 0) :
+    checkBlockHeaderProofState r0 blk = some (sn.hashAt 0) :=
+  header_complete H k b ub x0 x1 o n rest r0 blk sn wf hobj (by simpa [checkBlockHeaderProof] using hblk) hsn hdata
+
 /-- COMPLETENESS OF `check_account_proof`, END TO END, for honest proofs.  `tb` = the block (spec-valid, level 0), `ts` =
 the shard state (spec-valid, level 0); `pb`, `ps` ANY prunings of them (`PruneRel … 1`: any set of subtrees replaced by
 pruned branches, deeper levels below inner Merkle cells), each wrapped in the Merkle proof cell naming the level-0 hash
 and depth of the original.  Provided
 * the pruned header still shows the state commitment: `check_block_header_proof(pb, hash tb, True)` returns `hash ts`
-  (`root[2]` and its second child's hash are there; `c11_header_state_sound` lists what that needs),
+  (`c11_header_complete`: `root[2]` is there as a Merkle update cell storing the level-0 hash of its second child),
 * the pruned state still passes the TL-B walk for the address (`c11_locate_complete`: path to the account unpruned,
   everything off the path pruned or readable),
 * the supplied account state has as representation hash the level-0 hash of the account cell `aT` that the FULL state's
@@ -729,6 +743,13 @@ pruned branches only below its Merkle cell, and the toy hash is injective on its
 def pbC : Cell := .mk 1 (bytesToBits ([1, 1] ++ List.replicate 32 9 ++ [0, 0])) []
 def updB : Cell := .mk 4 (bytesToBits ([4] ++ List.replicate 32 7 ++ List.replicate 32 9 ++ [0, 0, 0, 0])) [pbB, pbC]
 def blkB : Cell := .mk (-1) [true, true, false] [leafA, leafA, updB]
+
+/-- the data hypothesis of `c11_header_complete` on the same block-shaped tree: the Merkle update cell stores in bytes 33..64
+the level-0 hash of its second child (a pruned branch: its stored hash) -/
+example : ∃ sn, specInfo toyH pbC = some sn ∧
+    pySlice (dataBytes (bytesToBits ([4] ++ List.replicate 32 7 ++ List.replicate 32 9 ++ [0, 0, 0, 0]))) 33 65 = sn.hashAt 0 :=
+  ⟨Spec.node toyH .pruned (bytesToBits ([1, 1] ++ List.replicate 32 9 ++ [0, 0])) [],
+    by simp [pbC, specInfo, specInfos, kindOf], by decide +kernel⟩
 
 example : Shape blkB ∧ (∃ s, specInfo toyH blkB = some s) ∧ OrdUnpruned blkB ∧
     (∃ suT, (cellView.refs blkB)[2]? = some suT ∧ cellView.kind suT = kMerkleUpdate) ∧
